@@ -4,6 +4,7 @@ CONSTANTS
   PEERS = {"p1"}
   Thr = 1
   CheckMode = "per_metric"
+  ForgetMode = "name"
   RenewMode = "sticky"
   W = 3
   AccN = 6
